@@ -1,40 +1,300 @@
+"""C11 crypto hashes: digest == standard digest however the input is chunked; hex string; repeatable reads; updates after
+the digest ignored until reset; single updates of >= 2^32 bytes.
+
+Decomposition (DESIGN.md section 3 "C11", adapted to measurements, see harness/C11_update.c header):
+ (a) buffering / padding / counters of every algorithm file, the static compression function replaced by a block MONITOR
+     (goto-cc --export-file-local-symbols + goto-instrument --remove-function-body on the wrapper unit harness/C11_wrap.c,
+     which textually includes the REAL source file so the real context layout and code are used):
+       upd_<alg>_left<k>   data movement of ONE update for pending-bytes k and EVERY len in [1, 2*block+2], symbolic contents
+       cnt_<alg>           counter arithmetic + block count of ONE update for EVERY counter value and every len (symbolic)
+       fin_<alg>_<lo>_<hi> finish: padding blocks, length field, digest byte order/truncation for every buffer fill in [lo,hi)
+       flen_<alg>          finish: length field and block count for EVERY counter value (symbolic)
+       reset_<alg>         reset from an arbitrary state: counter 0, chaining state independent of the past
+       huge_*              ONE update of 2^32 <= len < 2^61 bytes (symbolic), bug-hunting mode (loop cut, no unwinding assertion)
+       gost_sum256         the real GOST 256-bit adder against a reference adder for all operand pairs
+ (b) disp_type<t>          the real dispatcher pcryptohash.c over stub algorithms, symbolic call sequences
+ (c) keccak_round/_sched_* Keccak-f[1600] round function == FIPS 202 for all 2^1600 states; 24-round schedule, iota constants, absorb
+     kat_<type>            published vectors through the encoding: real dispatcher + real algorithm, 7 concrete messages per type
+"""
 import os
+import vf
 from vf import Q, VERIF
-WRAP = os.path.join(VERIF, "harness", "C11_wrap.c")      # absolute path: os.path.join(REPO, abs) == abs
+
+WRAP = os.path.join(VERIF, "harness", "C11_wrap.c")      # absolute: os.path.join(REPO, abs) == abs -> compiled as a unit
 MODELS = ["models/verif.c"]
+ALLOC = ["models/alloc.c", "models/verif.c", "models/libc_stub.c"]
+P = "__CPROVER_file_local_pcryptohash_"
+# name: (ALG id, VARIANT, block, source file, compression fn, update fn, PCryptoHashType)
 ALGS = {
-    # name: (ALG id, variant, block, source, static compression fn)
-    "md5":      (1, 0, 64, "pcryptohash-md5.c", "pp_crypto_hash_md5_process"),
-    "sha1":     (2, 0, 64, "pcryptohash-sha1.c", "pp_crypto_hash_sha1_process"),
-    "sha2_256": (3, 0, 64, "pcryptohash-sha2-256.c", "pp_crypto_hash_sha2_256_process"),
-    "sha2_224": (3, 1, 64, "pcryptohash-sha2-256.c", "pp_crypto_hash_sha2_256_process"),
-    "sha2_512": (4, 0, 128, "pcryptohash-sha2-512.c", "pp_crypto_hash_sha2_512_process"),
-    "sha2_384": (4, 1, 128, "pcryptohash-sha2-512.c", "pp_crypto_hash_sha2_512_process"),
-    "sha3_224": (5, 224, 144, "pcryptohash-sha3.c", "pp_crypto_hash_sha3_process"),
-    "sha3_256": (5, 256, 136, "pcryptohash-sha3.c", "pp_crypto_hash_sha3_process"),
-    "sha3_384": (5, 384, 104, "pcryptohash-sha3.c", "pp_crypto_hash_sha3_process"),
-    "sha3_512": (5, 512, 72, "pcryptohash-sha3.c", "pp_crypto_hash_sha3_process"),
-    "gost":     (6, 0, 32, "pcryptohash-gost3411.c", "pp_crypto_hash_gost3411_process"),
+    "md5":      (1, 0, 64, "pcryptohash-md5.c", P + "md5_c_pp_crypto_hash_md5_process", "p_crypto_hash_md5", 0),
+    "sha1":     (2, 0, 64, "pcryptohash-sha1.c", P + "sha1_c_pp_crypto_hash_sha1_process", "p_crypto_hash_sha1", 1),
+    "sha2_224": (3, 1, 64, "pcryptohash-sha2-256.c", P + "sha2_256_c_pp_crypto_hash_sha2_256_process", "p_crypto_hash_sha2_256", 2),
+    "sha2_256": (3, 0, 64, "pcryptohash-sha2-256.c", P + "sha2_256_c_pp_crypto_hash_sha2_256_process", "p_crypto_hash_sha2_256", 3),
+    "sha2_384": (4, 1, 128, "pcryptohash-sha2-512.c", P + "sha2_512_c_pp_crypto_hash_sha2_512_process", "p_crypto_hash_sha2_512", 4),
+    "sha2_512": (4, 0, 128, "pcryptohash-sha2-512.c", P + "sha2_512_c_pp_crypto_hash_sha2_512_process", "p_crypto_hash_sha2_512", 5),
+    "sha3_224": (5, 224, 144, "pcryptohash-sha3.c", P + "sha3_c_pp_crypto_hash_sha3_process", "p_crypto_hash_sha3", 6),
+    "sha3_256": (5, 256, 136, "pcryptohash-sha3.c", P + "sha3_c_pp_crypto_hash_sha3_process", "p_crypto_hash_sha3", 7),
+    "sha3_384": (5, 384, 104, "pcryptohash-sha3.c", P + "sha3_c_pp_crypto_hash_sha3_process", "p_crypto_hash_sha3", 8),
+    "sha3_512": (5, 512, 72, "pcryptohash-sha3.c", P + "sha3_c_pp_crypto_hash_sha3_process", "p_crypto_hash_sha3", 9),
+    "gost":     (6, 0, 32, "pcryptohash-gost3411.c", P + "gost3411_c_pp_crypto_hash_gost3411_process", "p_crypto_hash_gost3411", 10),
 }
-def mon(a):
-    src, fn = ALGS[a][3], ALGS[a][4]
-    return "__CPROVER_file_local_%s_%s" % (src.replace("-", "_").replace(".", "_"), fn)
-def upd_fn(a):
-    return {1: "p_crypto_hash_md5_update", 2: "p_crypto_hash_sha1_update", 3: "p_crypto_hash_sha2_256_update",
-            4: "p_crypto_hash_sha2_512_update", 5: "p_crypto_hash_sha3_update", 6: "p_crypto_hash_gost3411_update"}[ALGS[a][0]]
+GOST_SUM = P + "gost3411_c_pp_crypto_hash_gost3411_sum_256"
+# one representative per source file for the queries that do not depend on the variant (update never reads is224/is384)
+FILES = ["md5", "sha1", "sha2_256", "sha2_512", "sha3_256", "gost"]
+# findings: a single update of >= 2^32 bytes is truncated to 32 bits in these files
+LEN32 = {"md5": "C11_len32_md5", "sha1": "C11_len32_sha1", "sha2_256": "C11_len32_sha2_256", "gost": "C11_len32_gost"}
 
-def update_q(a, left):
-    alg, var, blk = ALGS[a][:3]
-    maxblk = (left + 2 * blk + 2) // blk + 1
-    uws = {"harness.0": 5, "harness.1": blk + 1, "harness.2": left + 1, "harness.3": 2 * blk + 3,
-           upd_fn(a) + ".0": 4}
-    return Q("upd_%s_left%d" % (a, left), "harness/C11_update.c", units=[WRAP], models=MODELS,
-             defs=["ALG=%d" % alg, "VARIANT=%d" % var, "LEFT=%d" % left], export_local=True, remove_bodies=[mon(a)],
-             unwindset=uws, funcs=[upd_fn(a)], timeout=600,
-             bounds={"algorithm": a, "pending_bytes": left, "len": "1..%d" % (2 * blk + 2), "counter": "any value of the full width",
-                     "content": "arbitrary bytes"})
+META = {
+    "assumptions": [
+        "little-endian host (PLIBSYS_IS_BIGENDIAN undefined, as in /repo/_build): the big-endian branches of *_swap_bytes are not compiled",
+        "step queries (upd/cnt/fin/flen/huge): the static compression function pp_crypto_hash_<alg>_process is replaced by a monitor that "
+        "checks the block it is handed and installs a fresh symbolic chaining state; the real compression functions are exercised only by the kat_* queries",
+        "cnt_*/flen_* (all counter values): memcpy/memset INTO THE CONTEXT OBJECT are abstracted to no-ops; the counter fields are not reachable "
+        "through an in-bounds copy into the buffer, and in-bounds-ness of every copy is checked by upd_*/fin_* for every (buffer fill, len) pair "
+        "with CBMC's own memcpy/memset",
+        "GOST step queries: the static 256-bit adder pp_crypto_hash_gost3411_sum_256 is replaced by a monitor that records target and operands and "
+        "returns a fresh symbolic result (uninterpreted sum): the queries decide which additions are made on which operands; the real adder is "
+        "decided against a reference adder for all 2^512 operand pairs by gost_sum256",
+        "the wrapper unit harness/C11_wrap.c adds only field accessors to the textually included real source",
+        "upd_*: the counter is one concrete near-carry value per buffer fill (every counter value is covered by cnt_*); fin_*: one concrete counter "
+        "with bits set in every limb per buffer fill (every counter value: flen_*)",
+        "disp_*: the six algorithm families are stubs that record the dispatcher's calls and return symbolic digest bytes; allocator = ledger model",
+        "kat_*: expected digests from Python hashlib (OpenSSL) resp. libgcrypt+nettle for GOST-CryptoPro, spot-checked against RFC 1321 / FIPS 180-4 / FIPS 202 / published GOST vectors",
+        "histories: one step from an arbitrary valid context state (buffer prefix = pending bytes, rest arbitrary, counter arbitrary, state arbitrary); "
+        "the step post-condition re-establishes that state description, so chunk sequences of any length follow by induction",
+    ],
+    "outside": [
+        "equivalence of the MD5, SHA-1, SHA-2 and GOST compression functions with the standards for ALL inputs (only the 7 vectors per type of "
+        "kat_* go through the real rounds); for SHA-3 the round function and the round schedule ARE decided for all states (keccak_round, keccak_sched_*)",
+        "upd_* thorough: for buffer fills other than 0, 1, block-1 the enumerated len stops at 2*block-fill+1 "
+        "(prologue, 0/1 whole blocks, every tail size); two whole blocks after the prologue are enumerated for the fills 0, 1, block-1 only; "
+        "quick tier: buffer fills 0, (1,) block-1 only (sha2_512/sha3_256 with empty buffer: len <= block+1), sha3_224/384/512 and sha2_224/384 "
+        "finish for the upper 16..24 fills only",
+        "single updates of more than 2*block+2 bytes other than the huge_* bug-hunting queries (block loop cut after 2 iterations, no unwinding assertion)",
+        "messages of 2^61 bytes or more (bit count leaves 64 bits; GOST update drops bits 61..63 of len)",
+        "big-endian hosts",
+        "SHA-3: p_crypto_hash_sha3_update with len close to 2^64 (ctx->len + len wraps)",
+        "whether a get_digest refused for a short buffer finalises the hash (the property does not say)",
+    ],
+    "units_included_by_harness": ["src/" + ALGS[a][3] for a in FILES],
+}
+MANIFEST = {
+    "level_text": "model_checking: bounded symbolic execution (CBMC 6.11, SAT) of the real pcryptohash*.c code. Buffering, padding, length "
+                  "counters and digest byte order of all six algorithm files are decided one step from an arbitrary context state: every "
+                  "(pending bytes, chunk length <= 2*block+2) pair with symbolic message bytes, every counter value of the full 64/128/256-bit width, "
+                  "every buffer fill at finish; the dispatcher is decided over all call sequences of bounded length with symbolic digest bytes and "
+                  "buffer lengths. Not 'proof': the compression functions are validated by known-answer vectors evaluated through the encoding only, "
+                  "chunk lengths are bounded, and multi-step histories follow by the (checked) inductive step rather than being enumerated.",
+    "level_note": "trusted: CBMC and its memcpy/memset models, the monitor/wrapper glue (field accessors), the reference 256-bit adder of gost_sum256, the expected "
+                  "padding streams written from RFC 1321 / FIPS 180-4 / FIPS 202 / RFC 5831, the vector table (hashlib, libgcrypt, nettle)",
+    "technique": "CBMC inductive step queries with compression-function monitor; kernel/adder equivalence; known-answer vectors through the encoding",
+    "design_ref": "DESIGN.md §3 'C11 Crypto hashes'",
+}
 
-META = {"assumptions": [], "outside": []}
-MANIFEST = {}
+
+def _open(fid):
+    return any(f["id"] == fid and f.get("status") == "open" for f in vf.load_findings())
+
+
+def _base(a, extra=()):
+    alg, var = ALGS[a][0], ALGS[a][1]
+    return ["ALG=%d" % alg, "VARIANT=%d" % var] + list(extra)
+
+
+def _rm(a):
+    return [ALGS[a][4]] + ([GOST_SUM] if a == "gost" else [])
+
+
+FS256 = os.environ.get("C11_FS256", "1") == "1"
+
+
+def _flags(a):
+    # SHA-3's 200-byte buffer exceeds CBMC's default field-sensitivity limit (64): without this constants do not propagate
+    return ["--max-field-sensitivity-array-size", "256"] if (a.startswith("sha3") and FS256) else []
+
+
+def upd_q(a, l_lo, l_hi, lo=None, hi=None, trim=False):
+    """data movement: every buffer fill in [l_lo, l_hi] x every len in [lo, hi] (default 1..2*block+2), enumerated"""
+    blk = ALGS[a][2]
+    lo = 1 if lo is None else lo
+    hi = 2 * blk + 2 if hi is None else hi
+    whole = (lo == 1 and hi == 2 * blk + 2)
+    name = "upd_%s_left%d" % (a, l_lo) + ("" if l_hi == l_lo else "_%d" % l_hi) + ("" if whole else "_len%d_%d" % (lo, hi))
+    return Q(name, "harness/C11_update.c", units=[WRAP], models=MODELS,
+             defs=_base(a, ["LEFT_LO=%d" % l_lo, "LEFT_HI=%d" % l_hi, "LEN_LO=%d" % lo, "LEN_HI=%d" % hi] + (["TRIM"] if trim else [])),
+             export_local=True, remove_bodies=_rm(a), unwind=5 * blk + 16, unwindset={ALGS[a][5] + "_update.0": 4},
+             object_bits=12, flags=_flags(a), funcs=[ALGS[a][5] + "_update"], timeout=1800,
+             bounds={"algorithm": a, "pending_bytes": "every value in %d..%d" % (l_lo, l_hi),
+                     "len": ("every value in %d..%d" % (lo, hi)) + ("; fills other than 0, 1, block-1: up to 2*block-fill+1" if trim else ""),
+                     "content": "symbolic bytes", "counter": "one near-carry value per buffer fill (all values: cnt_*)"})
+
+
+def upd_chunks(a, lefts, per_query, trim=False):
+    """cover lefts x [1, 2*block+2] with queries of at most ~per_query update executions each.
+    trim (thorough tier): for buffer fills other than 0, 1, block-1 the harness stops at len = 2*block-fill+1 (= to_fill + block + 1):
+    prologue, 0 and 1 whole blocks and every tail size are covered; two whole blocks after the prologue only for the boundary fills."""
+    blk = ALGS[a][2]
+    top = 2 * blk + 2
+    out = []
+    if top > per_query:                       # split the len range, one buffer fill per query
+        for l in lefts:
+            t = top if (not trim or l in (0, 1, blk - 1)) else 2 * blk - l + 1
+            n = -(-t // per_query)
+            size = -(-t // n)
+            out += [upd_q(a, l, l, lo, min(lo + size - 1, t)) for lo in range(1, t + 1, size)]
+        return out
+    k = max(1, per_query // (top * 3 // 4 if trim else top))     # several consecutive buffer fills per query
+    i = 0
+    while i < len(lefts):
+        j = i
+        while j + 1 < len(lefts) and lefts[j + 1] == lefts[j] + 1 and j + 1 - i < k:
+            j += 1
+        out.append(upd_q(a, lefts[i], lefts[j], trim=trim))
+        i = j + 1
+    return out
+
+
+def cnt_q(a, huge=False, kf=None):
+    blk = ALGS[a][2]
+    defs = _base(a, ["CNT", "C11_OWN_MEMCPY"] + (["HUGE"] if huge else []) + (["KF_DEMO"] if kf else []))
+    return Q(("huge_cnt_%s" if huge else "cnt_%s") % a, "harness/C11_update.c", units=[WRAP], models=MODELS, defs=defs,
+             export_local=True, remove_bodies=_rm(a), unwind=5 * blk + 16, unwindset={ALGS[a][5] + "_update.0": 3 if huge else 4},
+             flags=(["--no-unwinding-assertions"] if huge else []), unwind_assert=not huge, kf=kf,
+             funcs=[ALGS[a][5] + "_update"], timeout=900,
+             bounds={"algorithm": a, "counter": "every value of the counter width", "pending_bytes": "every value (symbolic)",
+                     "len": "2^32..2^61-1, block loop cut after 2 iterations (bug hunting)" if huge else "1..%d symbolic" % (2 * blk + 2),
+                     "memcpy": "abstracted"})
+
+
+def huge_q(a, left, kf=None):
+    blk = ALGS[a][2]
+    defs = _base(a, ["LEFT=%d" % left, "HUGE"] + (["KF_DEMO"] if kf else []))
+    return Q("huge_%s_left%d" % (a, left), "harness/C11_update.c", units=[WRAP], models=MODELS, defs=defs,
+             export_local=True, remove_bodies=_rm(a), unwind=6 * blk + 16, unwindset={ALGS[a][5] + "_update.0": 3},
+             flags=["--no-unwinding-assertions"] + _flags(a), unwind_assert=False, object_bits=12, kf=kf,
+             funcs=[ALGS[a][5] + "_update"], timeout=900,
+             bounds={"algorithm": a, "pending_bytes": left, "len": "2^32..2^61-1 symbolic, block loop cut after 2 iterations (bug hunting, no unwinding assertion)",
+                     "checked": "first two blocks, counter at the first compression call"})
+
+
+def fin_q(a, lo, hi):
+    blk = ALGS[a][2]
+    return Q("fin_%s_%d_%d" % (a, lo, hi), "harness/C11_finish.c", units=[WRAP], models=MODELS,
+             defs=_base(a, ["LEFT_LO=%d" % lo, "LEFT_HI=%d" % hi]), export_local=True, remove_bodies=_rm(a),
+             unwind=4 * blk + 16, unwindset={ALGS[a][5] + "_update.0": 3}, object_bits=12, flags=_flags(a),
+             funcs=[ALGS[a][5] + "_finish", ALGS[a][5] + "_digest", ALGS[a][5] + "_update"], timeout=1500,
+             bounds={"algorithm": a, "buffer_fill": "every value in %d..%d" % (lo, hi - 1), "content": "symbolic bytes",
+                     "counter": "one value with bits in every limb (all values: flen_*)"})
+
+
+def flen_q(a):
+    blk = ALGS[a][2]
+    return Q("flen_%s" % a, "harness/C11_finish.c", units=[WRAP], models=MODELS, defs=_base(a, ["CNT", "C11_OWN_MEMCPY"]),
+             export_local=True, remove_bodies=_rm(a), unwind=4 * blk + 16, unwindset={ALGS[a][5] + "_update.0": 3},
+             funcs=[ALGS[a][5] + "_finish"], timeout=900,
+             bounds={"algorithm": a, "counter": "every value of the counter width", "memcpy": "abstracted"})
+
+
+def reset_q(a):
+    blk = ALGS[a][2]
+    return Q("reset_%s" % a, "harness/C11_reset.c", units=[WRAP], models=MODELS, defs=_base(a), export_local=True,
+             unwind=blk + 8, flags=_flags(a), funcs=[ALGS[a][5] + "_reset"], timeout=600,
+             bounds={"algorithm": a, "pre_state": "counter, chaining state, checksum, buffer all symbolic"})
+
+
+def fin_chunks(a, step=32):
+    blk = ALGS[a][2]
+    return [fin_q(a, lo, min(lo + step, blk)) for lo in range(0, blk, step)]
+
+
+ALGUNITS = ["src/pcryptohash.c", "src/pcryptohash-md5.c", "src/pcryptohash-sha1.c", "src/pcryptohash-sha2-256.c",
+            "src/pcryptohash-sha2-512.c", "src/pcryptohash-sha3.c", "src/pcryptohash-gost3411.c", "src/pmem.c"]
+
+
+def kat_q(a):
+    t = ALGS[a][6]
+    return Q("kat_%s" % a, "harness/C11_kat.c", units=ALGUNITS, models=ALLOC, defs=["TYPE=%d" % t], unwind=300, object_bits=12,
+             flags=["--max-field-sensitivity-array-size", "256"], timeout=900,
+             funcs=["p_crypto_hash_new", "p_crypto_hash_update", "p_crypto_hash_reset", "p_crypto_hash_get_string", "p_crypto_hash_get_digest",
+                    ALGS[a][4].split("_c_")[1]],
+             bounds={"type": a, "messages": "7 concrete messages (empty, abc, 448/896-bit FIPS, block-1, block, block+1 bytes), one 2-chunk split each"})
+
+
+def disp_q(t, nops):
+    return Q("disp_type%s_ops%d" % ("_invalid" if t is None else str(t), nops), "harness/C11_dispatch.c",
+             units=["src/pcryptohash.c", "src/pmem.c"], models=ALLOC, defs=["NOPS=%d" % nops] + ([] if t is None else ["TYPE=%d" % t]),
+             unwind=70, timeout=900,
+             funcs=["p_crypto_hash_new", "p_crypto_hash_update", "p_crypto_hash_reset", "p_crypto_hash_get_string", "p_crypto_hash_get_digest",
+                    "p_crypto_hash_get_length", "p_crypto_hash_get_type", "p_crypto_hash_free", "pp_crypto_hash_digest_to_hex"],
+             bounds={"type": "every int outside 0..10" if t is None else t, "calls": nops,
+                     "alphabet": "update(len any, data NULL or not) / reset / get_string / get_digest(buffer length 0..65)",
+                     "digest_bytes": "symbolic"})
+
+
 def queries(tier):
-    return [update_q("md5", 0), update_q("md5", 1), update_q("md5", 63)]
+    quick = tier == "quick"
+    qs = []
+    # ---- (a) update: data movement ------------------------------------------------------------------------------
+    if quick:
+        lefts = {"md5": [0, 1, 63], "sha1": [0, 63], "sha2_256": [0, 63], "sha2_512": [127], "sha3_256": [135], "gost": [0, 1, 31]}
+        # empty buffer of the two big-block files: len up to block+1 only (the quick budget); whole range in the thorough tier
+        qs += [upd_q("sha2_512", 0, 0, 1, 65), upd_q("sha2_512", 0, 0, 66, 129), upd_q("sha3_256", 0, 0, 1, 69), upd_q("sha3_256", 0, 0, 70, 137)]
+    else:
+        lefts = {a: list(range(ALGS[a][2])) for a in ["md5", "sha1", "sha2_256", "sha2_512", "sha3_256", "sha3_512", "gost"]}
+        lefts["sha3_224"] = [0, 1, 72, 143]
+        lefts["sha3_384"] = [0, 1, 52, 103]
+    for a, ls in lefts.items():
+        qs += upd_chunks(a, ls, (70 if a.startswith("sha3") else 140) if quick else 200, trim=not quick)
+    # ---- (a) update: counters for every counter value -----------------------------------------------------------
+    for a in FILES + ([] if quick else ["sha3_224", "sha3_384", "sha3_512"]):
+        qs.append(cnt_q(a))
+    # ---- (a) finish ---------------------------------------------------------------------------------------------
+    if quick:
+        for a in ["md5", "sha1", "sha2_256", "sha2_512", "sha3_256", "gost"]:
+            qs += fin_chunks(a)
+        qs += [fin_q("sha2_224", 48, 64), fin_q("sha2_384", 104, 128), fin_q("sha3_224", 128, 144), fin_q("sha3_384", 88, 104),
+               fin_q("sha3_512", 56, 72)]
+    else:
+        for a in ALGS:
+            qs += fin_chunks(a)
+    for a in ["md5", "sha1", "sha2_256", "sha2_512", "gost"]:
+        qs.append(flen_q(a))
+    qs += [reset_q(a) for a in (["md5", "sha1", "sha2_224", "sha2_512", "sha3_256", "gost"] if quick else
+                                ["md5", "sha1", "sha2_224", "sha2_256", "sha2_384", "sha2_512", "sha3_224", "sha3_256", "sha3_384", "sha3_512", "gost"])]
+    # ---- (a) huge single update (bug hunting) -------------------------------------------------------------------
+    for a in FILES:
+        blk = ALGS[a][2]
+        fid = LEN32.get(a)
+        if fid and _open(fid):
+            # the finding is open: exactly one demonstration query per finding; the other huge queries of this file would
+            # fail for the same reason and are left out until the finding is fixed
+            qs.append(huge_q(a, blk - 1, kf=fid))
+        else:
+            if not (quick and a.startswith("sha3")):     # 64-bit modulo by the symbolic rate: ~60 s, thorough only
+                qs.append(cnt_q(a, huge=True))
+            for l in ([0, blk - 1] if quick else [0, 1, blk // 2, blk - 1]):
+                qs.append(huge_q(a, l))
+    # ---- GOST 256-bit adder -------------------------------------------------------------------------------------
+    qs.append(Q("gost_sum256", "harness/C11_gostsum.c", units=["src/pcryptohash-gost3411.c"], models=MODELS, export_local=True,
+                unwind=10, funcs=["pp_crypto_hash_gost3411_sum_256"], timeout=600, bounds={"operands": "all 2^512 pairs"}))
+    if _open("C11_gost_sum_carry"):
+        qs.append(Q("gost_sum256_kf_demo", "harness/C11_gostsum.c", units=["src/pcryptohash-gost3411.c"], models=MODELS, export_local=True,
+                    defs=["KF_DEMO"], unwind=10, kf="C11_gost_sum_carry", funcs=["pp_crypto_hash_gost3411_sum_256"], timeout=600,
+                    bounds={"operands": "pairs with a limb pair 0xFFFFFFFF/0xFFFFFFFF and carry-in 1"}))
+    # ---- (c) Keccak-f[1600] == FIPS 202 for every state (the one compression function whose miter the solver decides) ----
+    SP = P + "sha3_c_pp_crypto_hash_sha3_"
+    qs.append(Q("keccak_round", "harness/C11_keccak.c", units=[WRAP], models=MODELS, defs=["ALG=5", "ROUND", "VARIANT=256"], export_local=True,
+                unwind=30, funcs=["pp_crypto_hash_sha3_keccak_theta", "pp_crypto_hash_sha3_keccak_rho_pi", "pp_crypto_hash_sha3_keccak_chi"],
+                timeout=900, bounds={"state": "all 2^1600 values", "rounds": "one round without iota (schedule: keccak_sched_*)"}))
+    for v in ([256, 512] if quick else [224, 256, 384, 512]):
+        qs.append(Q("keccak_sched_%d" % v, "harness/C11_keccak.c", units=[WRAP], models=MODELS, defs=["ALG=5", "SCHED", "VARIANT=%d" % v],
+                    export_local=True, remove_bodies=[SP + "keccak_theta", SP + "keccak_rho_pi", SP + "keccak_chi"], unwind=30,
+                    funcs=["pp_crypto_hash_sha3_process", "pp_crypto_hash_sha3_keccak_permutate"], timeout=600,
+                    bounds={"state_and_block": "symbolic", "step_functions": "recording stubs (decided by keccak_round)"}))
+    # ---- (b) dispatcher -----------------------------------------------------------------------------------------
+    nops = 4 if quick else 6
+    qs.append(disp_q(None, nops))
+    qs += [disp_q(t, nops) for t in range(11)]
+    # ---- (c) known-answer vectors through the encoding ----------------------------------------------------------
+    qs += [kat_q(a) for a in ALGS]
+    return qs
